@@ -335,6 +335,9 @@ Proof.
   destruct (ck_res ch) as [k|[| |]]; simpl; rewrite IH; reflexivity.
 Qed.
 
+Theorem lex_kinds : forall t, map tok_kind (fst (lex t)) = map (fun ch => res_kind (ck_res ch)) (chunks t).
+Proof. intro t. exact (place_kinds (chunks t) 0). Qed.
+
 (* ---------------------------------------------------------------- examples (the statements are not vacuous) *)
 
 Open Scope N_scope.
